@@ -108,29 +108,34 @@ class Position(NamedTuple):
             A tuple (line_number, column_number), both 1-based.
         """
         lines = self.text.splitlines(keepends=True)
-        cumulative_length = 0
-        target_line_index = -1
+        line_start = 0
 
         for i, line in enumerate(lines):
-            cumulative_length += len(line)
-            if self.pos < cumulative_length:
-                target_line_index = i
-                break
+            if self.pos < line_start + len(line):
+                return i + 1, self.pos - line_start + 1
+            line_start += len(line)
 
-        if target_line_index == -1:
-            return len(lines) + 1, 1
+        # At or after the end of the text.
+        if lines and not _ends_with_line_break(lines[-1]):
+            # Still on the last line, just past its last character.
+            last = lines[-1]
+            return len(lines), self.pos - (line_start - len(last)) + 1
 
-        # 1-based
-        line_number = target_line_index + 1
-        column_number = (
-            self.pos - (cumulative_length - len(lines[target_line_index])) + 1
-        )
-        return line_number, column_number
+        # The text is empty or ends with a line break: a new, empty line.
+        return len(lines) + 1, self.pos - line_start + 1
 
     def line_of(self) -> str:
         """Return the line of text that contains this position."""
         line_number, _ = self.line_col()
-        return self.text[line_number - 1]
+        lines = self.text.splitlines(keepends=True)
+        if line_number <= len(lines):
+            return lines[line_number - 1]
+        return ""
+
+
+def _ends_with_line_break(line: str) -> bool:
+    """True if `line`, an item of `str.splitlines(keepends=True)`, has a line ending."""
+    return len(line.splitlines()[0]) < len(line) if line else False
 
 
 class Pair:
